@@ -247,6 +247,50 @@ fn run_faults<K: KeyT, V: ValT>(a: &Args) {
     }
 }
 
+/// Large maps (counters only): many table doublings with the production constant R, with
+/// overwrites, lookups and removals mixed in; every call's hash/move/allocation counts are logged.
+fn run_big<K: KeyT, V: ValT>(a: &Args) {
+    use rand::Rng;
+    let mut out = BufWriter::new(std::fs::File::create(a.get("out", "/dev/stdout")).unwrap());
+    let n = a.num("n", 20000) as u32;
+    let seed = a.num("seed", 1);
+    let hm = a.num("hm", 0) as u8;
+    emit(&mut out, &header::<K>(a, json!({"mode":"big","n":n})));
+    let mut rng = SmallRng::seed_from_u64(seed.wrapping_mul(5471));
+    let mut w: World<K, V> = World::new(1, 0);
+    rebase_live();
+    emit(&mut out, &json!({"op":"Reset","n":n,"hm":hm}));
+    let mut ex = |w: &mut World<K, V>, op: Value| {
+        let ev = w.exec(&op);
+        emit(&mut out, &ev);
+    };
+    ex(&mut w, json!({"op":"New","s":1,"ty":"map","cap":0,"hm":hm,"hs":0}));
+    let mut next = 1u32;
+    let mut lo = 1u32; // keys lo..next are present (removals take from the low end or at random)
+    while next <= n {
+        let r = rng.gen_range(0..100);
+        if r < 70 || next - lo < 4 {
+            ex(&mut w, json!({"op":"Insert","s":1,"k":next,"v":rng.gen_range(0..10)}));
+            next += 1;
+        } else if r < 80 {
+            let k = rng.gen_range(lo..next);
+            ex(&mut w, json!({"op":"Insert","s":1,"k":k,"v":rng.gen_range(0..10)}));
+        } else if r < 88 {
+            let k = rng.gen_range(lo..next + 3);
+            ex(&mut w, json!({"op":"Get","s":1,"k":k,"kind":"get"}));
+        } else if r < 96 {
+            ex(&mut w, json!({"op":"Remove","s":1,"k":lo}));
+            lo += 1;
+        } else {
+            let k = rng.gen_range(lo..next);
+            ex(&mut w, json!({"op":"Entry","s":1,"k":k,"chain":[{"m":"and_modify","add":1},{"m":"or_insert","v":1},{"m":"read"}]}));
+        }
+    }
+    ex(&mut w, json!({"op":"DropMap","s":1}));
+    drop(ex);
+    emit(&mut out, &json!({"op":"EndRun","live_ids": live_ids(), "live_allocs": live_tables()}));
+}
+
 /// Tombstone-steered histories: fill a table, punch tombstones into it by removals at high load,
 /// refill it until growth_left is exhausted while tombstones are still there, then keep going.
 /// (Uniformly random histories almost never reach "full, with tombstones, no resize pending".)
@@ -527,6 +571,7 @@ fn main() {
         "faults" => dispatch!(run_faults),
         "meta" => dispatch!(run_meta),
         "tomb" => dispatch!(run_tomb),
+        "big" => dispatch!(run_big),
         _ => {
             eprintln!("usage: drive random|run ...");
             std::process::exit(2);
